@@ -21,7 +21,10 @@ MANIFEST_ENTRY = {
     "text": "Theorems quantified over every file system, path list and every behaviour of decoding, tokenizing, parsing, analysis and "
             "rendering: `check` exits 0 iff it prints OK iff it emits no coded diagnostic, and a non-zero exit always carries at least "
             "one coded diagnostic; a directory of files is equivalent to the list of its entries for check, tokenize and echo; "
-            "tokenize / echo exit 0 exactly when every file tokenizes / parses and renders. The model is tied to cli.rs and "
+            "tokenize / echo exit 0 exactly when every file tokenizes / parses and renders; a path that does not exist fails all three commands "
+            "(exit 1, no OK line, P0023 printed) at whatever position of the argument list it stands (C13_missing_path_fails); the verdict of "
+            "check is the same for every order of the path arguments, given an analysis whose verdict does not depend on the order of the "
+            "files (C13_argument_order). The model is tied to cli.rs and "
             "project.rs by comparing (exit status, OK line, code set) with the real `ironplcc` on every generated scenario; the "
             "contract is also evaluated directly on the binary's output.",
     "note": "Trusted: Coq kernel, extraction + driver, the scenario runner (temp directories, ANSI-stripped stderr). clap argument "
